@@ -151,6 +151,7 @@ def run(ctx):
             stats["hang"] += 1
         elif ref_o != "ok":
             stats["crash"] += 1
+            stats.setdefault("crash_cases", []).append([name, ref_o])
         if "sig deadlock" in ref_out:
             stats["deadlock"] += 1
         sim, nact = common.simultaneity(ref_out)
